@@ -179,8 +179,12 @@ PROPS = {
     ),
     'C06': dict(
         title='Registries consult exactly their current base chain, in resolution order',
-        contracts=['C04_lookup', 'C09_registry', 'C06_verifying'], falsifier='C06', modes=['py', 'c'], level='other',
+        contracts=['C04_lookup', 'C09_registry', 'C06_verifying', 'C05_cache'], falsifier='C06', modes=['py', 'c'], level='other',
         cfun=['C06_c'],
+        # an answer computed from the chain as it was before a re-basing that completes while the lookup is in flight must not
+        # reach the live cache (else the old chain is consulted from then on): cache-soundness contracts of the three cached
+        # searches (Python) and the stale-store obligations St of their C twins
+        cfunctions=['_lookup', '_lookupAll', '_subscriptions'],
         level_text_extra=' The C twin of the verifying flavour is verified from the clang AST (contracts/C06_c.py): _generations_tuple (loop invariant: the new tuple '
                          'holds the generation counters of the first i registries), _verify (a current snapshot means nothing happens, a stale or missing one '
                          'empties the caches and is re-taken, failure is reported), verify_changed (snapshot = tuple(registry.ro)[1:], generations recorded '
@@ -188,6 +192,7 @@ PROPS = {
                          'use of the cache layer).',
         only={'C04_lookup': ['adapter.py:AdapterLookupBase._uncached_lookup', 'adapter.py:AdapterLookupBase._uncached_lookupAll',
                              'adapter.py:AdapterLookupBase._uncached_subscriptions'],
+              'C05_cache': ['adapter.py:LookupBase.lookup', 'adapter.py:LookupBase.lookupAll', 'adapter.py:LookupBase.subscriptions'],
               'C09_registry': ['adapter.py:BaseAdapterRegistry.changed', 'adapter.py:AdapterRegistry.changed',
                                'adapter.py:BaseAdapterRegistry._setBases', 'adapter.py:AdapterRegistry._setBases',
                                'adapter.py:AdapterRegistry._addSubregistry', 'adapter.py:AdapterRegistry._removeSubregistry',
